@@ -43,7 +43,7 @@ PROPS = {
     },
     "C08": {
         "lean": ["Brc20.Props.C08"], "suites": ["E"],
-        "oracle_families": ["pool-receipts", "pool-index"],
+        "oracle_families": ["pool-receipts", "pool-index", "pool-gas"],
         "level": "proof", "trusted": ["revm (parameter): what a run did arrives as recorded events; deterministic in state view and environment", "EVM recorder / table-write hooks (cargo feature verif-hooks)", "opaque hash functions (keccak, sha256, merkle, bloom): row contents are compared on the real code only"] + ["secp256k1 recovery / RLP decoding of raw transactions: harness-side oracle (decodeRaw)"],
         "assumptions": ["revm bumps the sender nonce by one for every run it accepts (contract); known finding F11 covers runs it rejects"],
     },
